@@ -8,6 +8,7 @@
 //@shadow filename.h
 //@hdrsubst cpp*.h except=cppDeclaration.h "from=(?m)^\s*virtual CPP\w+ \*as_\w+\(\);\s*$" to=
 //@hdrsubst cpp*.h "from=\bvirtual\s+" to=
+//@hdrinsert cppParameterList.h after="bool is_equivalent(const CPPParameterList &other) const;" text="bool is_equivalent__body(const CPPParameterList &other) const;"
 //@bison src/cppparser/cppBison.yxx cppBison.h
 #include "dtoolbase.h"
 #include "cppFunctionType.h"
@@ -17,11 +18,14 @@
 
 // ---- callees (replace form): type and parameter-list comparison answer arbitrarily but recorded
 static bool g_ret_equiv, g_ret_conv, g_params_equiv;
-bool CPPType::is_equivalent(const CPPType &other) const { return g_ret_equiv; }
+// type equivalence: the return types answer g_ret_equiv; the i-th parameter types answer vin_param_equiv[i]
+static CPPType *g_ptype_a[2], *g_ptype_b[2]; static bool vin_param_equiv[2];
+bool CPPType::is_equivalent(const CPPType &other) const { for (int i = 0; i < 2; i++) if (this == g_ptype_a[i] && &other == g_ptype_b[i]) return vin_param_equiv[i]; return g_ret_equiv; }
 bool CPPType::is_convertible_to(const CPPType *other) const { return g_ret_conv; }
-bool CPPParameterList::is_equivalent(const CPPParameterList &other) const { return g_params_equiv; }
 
 //@extract src/cppparser/cppFunctionType.cxx CPPFunctionType::match_virtual_override
+//@extract src/cppparser/cppParameterList.cxx CPPParameterList::is_equivalent rename=__body
+bool CPPParameterList::is_equivalent(const CPPParameterList &other) const { return g_params_equiv; }
 
 void h_match_virtual_override() {
   CPPFunctionType *f = (CPPFunctionType *)vu_alloc(sizeof(CPPFunctionType)), *g = (CPPFunctionType *)vu_alloc(sizeof(CPPFunctionType));
@@ -35,5 +39,25 @@ void h_match_virtual_override() {
   int virt = CPPFunctionType::F_override | CPPFunctionType::F_final;
   bool same_kind = ((f->_flags ^ g->_flags) & ~virt) == 0;
   OBL(r == ((g_ret_equiv || g_ret_conv) && same_kind && g_params_equiv), "C10.match_virtual_override: a function overrides a base function exactly if the return type is equal or convertible, the parameter lists are equivalent and the function kinds (const, ref-qualifiers, ...) agree; override and final on either side play no part");
+  VU_REACHED();
+}
+
+// ---- parameter lists: equivalent iff both are variadic or neither is, they have the same number of parameters and the
+// parameter types are pairwise equivalent ([dcl.fct]: the parameter-type-list includes the ellipsis)
+#include "cppInstance.h"
+void h_parameter_lists_equivalent() {
+  CPPParameterList *a = VU_NEW(CPPParameterList), *b = VU_NEW(CPPParameterList);
+  size_t na = nondet_size_t(), nb = nondet_size_t(); __CPROVER_assume(na <= 2 && nb <= 2);
+  a->_parameters._n = na; a->_parameters._trunc = false; b->_parameters._n = nb; b->_parameters._trunc = false;
+  a->_includes_ellipsis = nondet_bool(); b->_includes_ellipsis = nondet_bool();
+  for (int i = 0; i < 2; i++) {
+    g_ptype_a[i] = (CPPType *)vu_alloc(8); g_ptype_b[i] = (CPPType *)vu_alloc(8); vin_param_equiv[i] = nondet_bool();
+    CPPInstance *pa = VU_NEW(CPPInstance), *pb = VU_NEW(CPPInstance); pa->_type = g_ptype_a[i]; pb->_type = g_ptype_b[i];
+    a->_parameters._d[i] = pa; b->_parameters._d[i] = pb;
+  }
+  bool r = a->is_equivalent__body(*b);
+  bool want = a->_includes_ellipsis == b->_includes_ellipsis && na == nb;
+  for (int i = 0; i < 2; i++) if ((size_t)i < na && (size_t)i < nb && !vin_param_equiv[i]) want = false;
+  OBL(r == want, "C10.parameter_lists: two parameter lists are equivalent exactly if both or neither end in an ellipsis, they have the same length and the parameter types are pairwise equivalent (f(const char *, ...) does not override f(const char *))");
   VU_REACHED();
 }
